@@ -444,7 +444,7 @@ func c16RandPatterns(r *rand.Rand, tree []c16Entry, n int) []string {
 }
 
 func c16Gen(c *core.Ctx) {
-	ntrees := c.Pick(300, 10000)
+	ntrees := c.Pick(300, 60000)
 	npat := c.Pick(200, 300)
 	// a fixed tree mirroring the repo's own test plus directories vs files with the same prefix
 	base := []c16Entry{{".git/config", "file"}, {".gitignore", "file"}, {"a.go", "file"}, {"foo/a.go", "file"}, {"bar/a.go", "file"}, {"baz/a.go", "file"},
